@@ -23,10 +23,13 @@ GNone == { <<1,0,0,1>> }
 GC4   == { <<1,0,0,1>>, <<0,-1,1,0>>, <<-1,0,0,-1>>, <<0,1,-1,0>> }
 GC4v  == GC4 \cup { <<-1,0,0,1>>, <<1,0,0,-1>>, <<0,1,1,0>>, <<0,-1,-1,0>> }
 GMx   == { <<1,0,0,1>>, <<-1,0,0,1>> }
+GH3   == { <<1,0,0,1>>, <<-1,-1,1,0>>, <<0,1,-1,-1>> }
+GH6   == GH3 \cup { <<-1,0,0,-1>>, <<0,-1,1,1>>, <<1,1,-1,0>> }
+GH3m  == GH3 \cup { <<-1,0,1,1>>, <<0,-1,-1,0>>, <<1,1,0,-1>> }
 
 Chk(name, cond) == cond \/ (Diagnose /\ PrintT(<<"MISMATCH", tid, l, name>>))
 
-KLof(s) == [i \in 1..Len(s) |-> [c |-> <<s[i][1], s[i][2]>>, lev |-> s[i][3], fac |-> s[i][4], ev |-> s[i][5], st |-> s[i][6]]]
+KLof(s) == [i \in 1..Len(s) |-> [c |-> <<s[i][1], s[i][2]>>, lev |-> s[i][3], fac |-> s[i][4], ev |-> s[i][5], st |-> s[i][6], sp |-> s[i][7]]]
 SetOf(s) == {s[i] : i \in 1..Len(s)}
 ModeOf(e) == [par |-> e.par, dump |-> e.dump, allow |-> e.allow, sym |-> e.sym, restart |-> e.restart]
 AsSeq(s) == [i \in 1..Len(s) |-> s[i]]
@@ -44,7 +47,7 @@ TStartRestart == /\ IsEvent("StartRestart") /\ StartRestart(ModeOf(Ev), Ev.nit, 
                  /\ Chk("kl", kl' = KLof(Ev.kl)) /\ Chk("facs", facs' = AsSeq(Ev.facs)) /\ Chk("start", start' = Ev.start)
                  /\ CoefMatch(Ev.coef, coef', "coef")
                  /\ (Has("disk") => DiskMatchP(Ev.disk))
-TBeginProcess == /\ IsEvent("BeginProcess") /\ BeginProcess /\ Chk("sel", sel' = AsSeq(Ev.sel)) /\ Chk("par", Ev.par = mode.par)
+TBeginProcess == /\ IsEvent("BeginProcess") /\ BeginProcess /\ Chk("sel", sel' = AsSeq(Ev.sel)) /\ Chk("kl", kl' = KLof(Ev.kl)) /\ Chk("par", Ev.par = mode.par)
 TEval == /\ IsEvent("Eval") /\ EvalSerial /\ Chk("k", act'.k = Ev.k) /\ Chk("kl", kl' = KLof(Ev.kl))
          /\ CoefMatch(Ev.rsum, rsum', "rsum")
 TEndProcess == /\ IsEvent("EndProcess") /\ (EndSerial \/ (EndCollect /\ pc' = "pickle"))
@@ -81,7 +84,7 @@ RestartEq == refSet =>
       /\ (pc = "idle" /\ returned # {}) => ((start + it) \in DOMAIN ref /\ returned = ref[start + it])
 
 InvTable == [ TypeOK |-> TypeOK, NoError |-> NoError, WeightOne |-> WeightOne, NoEquivDup |-> NoEquivDup,
-              OrbitWeight |-> OrbitWeight, Tiling |-> Tiling, IntegralConsistent |-> IntegralConsistent,
+              OrbitWeight |-> OrbitWeight, DistinctStoragePaths |-> DistinctStoragePaths, Tiling |-> Tiling, IntegralConsistent |-> IntegralConsistent,
               SavedWeightOne |-> SavedWeightOne, ReturnedWeightOne |-> ReturnedWeightOne,
               CollectedOnce |-> CollectedOnce, AllCollected |-> AllCollected, RestartEq |-> RestartEq ]
 (* always TRUE; reports *)
